@@ -104,6 +104,7 @@ type world struct {
 
 	tokSeen map[*api.AuthToken]*obs // every token object a probe was handed (kept alive: pointer equality = same object)
 
+	progress    atomic.Int64 // bumped whenever a call into portbase returned (hang monitor)
 	inflight    atomic.Int64
 	maxInflight atomic.Int64
 	ridCtr      atomic.Uint64
@@ -200,6 +201,7 @@ func startWorld(dir string, b *vlib.Batch, logLevel string) (*world, error) {
 		return nil, fmt.Errorf("register noise option: %w", err)
 	}
 	w.handler = api.VerifMainHandler()
+	go w.hangMonitor()
 	w.dbi = database.NewInterface(&database.Options{Local: true, Internal: true})
 	return w, nil
 }
@@ -606,6 +608,7 @@ func (w *world) doConcurrent(sp *reqSpec) *obs {
 }
 
 func (w *world) serve(sp *reqSpec, rid string, o *obs) {
+	defer w.progress.Add(1)
 	req := w.buildRequest(sp, rid)
 	rec := &recorder{hdr: http.Header{}}
 	func() {
@@ -903,6 +906,7 @@ func (w *world) login(r, p int) (string, error) {
 
 func (w *world) expireSessions() {
 	api.VerifExpireSessions()
+	w.progress.Add(1)
 	for _, s := range w.model.Sess {
 		s.Live = false
 	}
